@@ -496,7 +496,135 @@ def selftest():
         m = decode_met(b, kind, 5, 4)
         m['times'] = [(yyyyjjj(d), h) for d, h in m['times']]
         res[kind] = encode_met(m)[0] == b
+    b = open(base + 'cloud_rain/test.cloud_rain', 'rb').read()
+    m = decode_cloud_rain(b)
+    m['times'] = [(yyyyjjj(d), h) for d, h in m['times']]
+    res['cloud_rain'] = encode_cloud_rain(m)[0] == b
+    b = open(base + 'landuse/test.landuse', 'rb').read()
+    res['landuse'] = encode_landuse(decode_landuse(b, 5, 4))[0] == b
     return res
+
+
+
+
+# ---------------------------------------------------------------------------
+# Cloud/rain (CAMx >= 4.3):
+#   rec  cldhdr a20, nx, ny, nz
+#   per time:  rec hour idate ;  per layer: rec cwater, rec rwater, rec snow,
+#              rec graupel, rec cod     (each ((x(i,j), i=1..nx), j=1..ny))
+# Land use (new style):
+#   rec 'LUCAT11 ' | 'LUCAT26 ' ; rec (((fland(i,j,l), i), j), l)
+#   optionally  rec 'LAI     ' ; rec lai(i,j)   and   rec 'TOPO    ' ; rec topo(i,j)
+# ---------------------------------------------------------------------------
+CR_VARS = ['CLOUD', 'RAIN', 'SNOW', 'GRAUPEL', 'COD']
+
+
+def cloud_rain_from_spec(spec):
+    nx, ny, nz, nt = spec['nx'], spec['ny'], spec['nz'], spec['nt']
+    fields = {}
+    base = 1.0
+    for n in CR_VARS:
+        a = np.zeros((nt, nz, ny, nx), dtype='>f4')
+        a[...] = (base + 0.25 * np.arange(a.size, dtype='f8')).reshape(a.shape)
+        base += 0.25 * a.size + 300.0
+        fields[n] = a
+    return {'kind': 'cloud_rain', 'nx': nx, 'ny': ny, 'nz': nz, 'times': met_times(spec),
+            'fields': fields, 'cldhdr': spec.get('cldhdr', 'CAMx_V4.3 CLOUD_RAIN ')}
+
+
+def encode_cloud_rain(m):
+    out = [pack_record(m['cldhdr'].ljust(20)[:20].encode('ascii') +
+                       struct.pack('>iii', m['nx'], m['ny'], m['nz']))]
+    off = len(out[0])
+    header_end = off
+    ends = []
+    for ti, (d, h) in enumerate(m['times']):
+        r = pack_record(struct.pack('>fi', h, yyjjj(d)))
+        out.append(r)
+        off += len(r)
+        for k in range(m['nz']):
+            for n in CR_VARS:
+                r = pack_record(np.asarray(m['fields'][n][ti, k], dtype='>f4').tobytes())
+                out.append(r)
+                off += len(r)
+        ends.append(off)
+    return b''.join(out), {'header_end': header_end, 'step_ends': ends}
+
+
+def decode_cloud_rain(buf):
+    recs = walk(buf)
+    p = recs[0][1]
+    if len(p) < 12:
+        raise RecordError('cloud/rain header record of %d bytes' % len(p))
+    nx, ny, nz = struct.unpack('>iii', p[-12:])
+    cldhdr = p[:-12].decode('ascii')
+    per = 1 + nz * 5
+    body = recs[1:]
+    if nz <= 0 or len(body) % per:
+        raise RecordError('%d records after the header is not a multiple of %d' % (len(body), per))
+    nt = len(body) // per
+    fields = {n: np.zeros((nt, nz, ny, nx), dtype='>f4') for n in CR_VARS}
+    times = []
+    for t in range(nt):
+        p = body[t * per][1]
+        if len(p) != 8:
+            raise RecordError('time record of %d bytes' % len(p))
+        h, d = struct.unpack('>fi', p)
+        times.append((d, h))
+        for k in range(nz):
+            for vi, n in enumerate(CR_VARS):
+                p = body[t * per + 1 + k * 5 + vi][1]
+                if len(p) != 4 * nx * ny:
+                    raise RecordError('data record of %d bytes' % len(p))
+                fields[n][t, k] = np.frombuffer(p, dtype='>f4').reshape(ny, nx)
+    return {'kind': 'cloud_rain', 'nx': nx, 'ny': ny, 'nz': nz, 'times': times,
+            'fields': fields, 'cldhdr': cldhdr}
+
+
+def landuse_from_spec(spec):
+    nx, ny = spec['nx'], spec['ny']
+    nland = spec.get('nland', 11)
+    f = np.zeros((nland, ny, nx), dtype='>f4')
+    f[...] = (1.0 + 0.25 * np.arange(f.size, dtype='f8')).reshape(f.shape) / (f.size + 8.0)
+    out = {'nx': nx, 'ny': ny, 'nland': nland, 'FLAND': f, 'extra': []}
+    base = 100.0
+    for key in spec.get('extra', []):
+        a = (base + 0.5 * np.arange(nx * ny, dtype='f8')).reshape(ny, nx).astype('>f4')
+        base += 1000.
+        out['extra'].append((key, a))
+    return out
+
+
+def encode_landuse(m):
+    out = [pack_record(('LUCAT%02d' % m['nland']).ljust(8).encode('ascii')),
+           pack_record(np.asarray(m['FLAND'], dtype='>f4').tobytes())]
+    for key, a in m['extra']:
+        out.append(pack_record(key.ljust(8).encode('ascii')))
+        out.append(pack_record(np.asarray(a, dtype='>f4').tobytes()))
+    b = b''.join(out)
+    return b, {'header_end': len(out[0]), 'step_ends': [len(b)]}
+
+
+def decode_landuse(buf, nx, ny):
+    recs = walk(buf)
+    if len(recs) < 2 or len(recs) % 2 or len(recs[0][1]) != 8:
+        raise RecordError('land-use record structure')
+    key = recs[0][1].decode('ascii').strip()
+    if not key.startswith('LUCAT'):
+        raise RecordError('first key %r' % key)
+    nland = int(key[5:])
+    p = recs[1][1]
+    if len(p) != 4 * nland * nx * ny:
+        raise RecordError('FLAND record of %d bytes for %d classes' % (len(p), nland))
+    out = {'nx': nx, 'ny': ny, 'nland': nland,
+           'FLAND': np.frombuffer(p, dtype='>f4').reshape(nland, ny, nx), 'extra': []}
+    for i in range(2, len(recs), 2):
+        k = recs[i][1].decode('ascii').strip()
+        p = recs[i + 1][1]
+        if len(p) != 4 * nx * ny:
+            raise RecordError('%s record of %d bytes' % (k, len(p)))
+        out['extra'].append((k, np.frombuffer(p, dtype='>f4').reshape(ny, nx)))
+    return out
 
 
 if __name__ == '__main__':
